@@ -12,6 +12,7 @@ import (
 	"strings"
 
 	"github.com/bufbuild/protocompile/linker"
+	"github.com/bufbuild/protocompile/parser"
 	"github.com/bufbuild/protocompile/reporter"
 )
 
@@ -42,7 +43,36 @@ func kindsStr(k []string) string {
 
 // importOnce calls the real Symbols.Import with a fresh handler (a handler latches its first error).
 func importOnce(s *linker.Symbols, un *universe, form, id string) error {
+	if form == "link" {
+		_, err := linkOnce(s, un, id, nil)
+		return err
+	}
 	return s.Import(un.fd(form, id), reporter.NewHandler(nil))
+}
+
+// linkOnce is the other way a file gets into a shared table: linker.Link of the parsed file against the
+// table (what protocompile.Compiler does with Compiler.Symbols).  Every call parses afresh, so the
+// descriptor is a new instance each time.
+func linkOnce(s *linker.Symbols, un *universe, id string, linked map[string]linker.Result) (linker.Result, error) {
+	h := reporter.NewHandler(nil)
+	fileAST, err := parser.Parse(pathOf(id), strings.NewReader(un.src[id]), h)
+	if err != nil {
+		return nil, fmt.Errorf("machinery: parse: %w", err)
+	}
+	pr, err := parser.ResultFromAST(fileAST, true, h)
+	if err != nil {
+		return nil, fmt.Errorf("machinery: parse result: %w", err)
+	}
+	var deps linker.Files
+	for _, d := range un.files[id].Deps {
+		// an import that was itself linked into this table earlier in the history is that very result
+		if r, ok := linked[d]; ok {
+			deps = append(deps, r)
+		} else {
+			deps = append(deps, un.result[d])
+		}
+	}
+	return linker.Link(pr, deps, s, h)
 }
 
 func residueClass(un *universe, f string, kinds []string, diff string) string {
@@ -90,8 +120,27 @@ func runHist(un *universe, in *bufio.Scanner, out io.Writer, forms []string) (in
 			ids[i] = st.F
 		}
 		for _, form := range forms {
+			if form == "link" && hasRepeat(un, ids) {
+				// linking the same source twice makes two descriptors with the same names: not an Import
+				// of an already imported file
+				continue
+			}
 			s := &linker.Symbols{}
+			linked := map[string]linker.Result{}
+			doImport := func(id string) error {
+				if form != "link" {
+					return importOnce(s, un, form, id)
+				}
+				r, err := linkOnce(s, un, id, linked)
+				if err == nil {
+					linked[id] = r
+				}
+				return err
+			}
 			report := func(cls string, i int, detail string) {
+				if form == "link" {
+					cls = "link:" + cls
+				}
 				_ = enc.Encode(disagreement{Class: cls,
 					Case:   map[string]any{"imports": ids, "step": i, "form": form},
 					Detail: detail})
@@ -100,7 +149,7 @@ func runHist(un *universe, in *bufio.Scanner, out io.Writer, forms []string) (in
 			for i, st := range c.Steps {
 				nsteps++
 				before := un.project(s)
-				err := importOnce(s, un, form, st.F)
+				err := doImport(st.F)
 				after := un.project(s)
 				want := st.Tab.table()
 				switch {
@@ -136,7 +185,7 @@ func runHist(un *universe, in *bufio.Scanner, out io.Writer, forms []string) (in
 						// still look at the re-import: it is part of the statement
 					}
 					nre++
-					err2 := importOnce(s, un, form, st.F)
+					err2 := doImport(st.F)
 					again := un.project(s)
 					if (err2 == nil) != st.ReOK {
 						report("reimport-succeeds:"+kindsStr(st.Kinds)+"-collision", i,
@@ -161,4 +210,44 @@ func runHist(un *universe, in *bufio.Scanner, out io.Writer, forms []string) (in
 	_ = enc.Encode(map[string]any{"summary": map[string]int{"cases": ncases, "steps": nsteps,
 		"failed_steps": nfail, "reimports": nre, "forms": len(forms)}})
 	return ncases, nil
+}
+
+// hasRepeat: a step whose file is an earlier step's file or one of its (transitive) imports
+func hasRepeat(un *universe, ids []string) bool {
+	seen := map[string]bool{}
+	var mark func(id string)
+	mark = func(id string) {
+		if seen[id] {
+			return
+		}
+		seen[id] = true
+		for _, d := range un.files[id].Deps {
+			mark(d)
+		}
+	}
+	earlier := map[string]bool{}
+	for _, id := range ids {
+		if seen[id] {
+			return true
+		}
+		// an earlier linked file reached only through another import would be met as a second descriptor
+		// instance of the same file (the driver can substitute linked results for direct imports only)
+		var deep func(d string) bool
+		deep = func(d string) bool {
+			for _, dd := range un.files[d].Deps {
+				if earlier[dd] || deep(dd) {
+					return true
+				}
+			}
+			return false
+		}
+		for _, d := range un.files[id].Deps {
+			if deep(d) {
+				return true
+			}
+		}
+		mark(id)
+		earlier[id] = true
+	}
+	return false
 }
